@@ -18,30 +18,30 @@ const modPath = "github.com/olareg/olareg"
 
 // Ctx is the program-wide context.
 type Ctx struct {
-	repo      string
-	prog      *ssa.Program
-	fset      *token.FileSet
-	pkgs      map[string]*ssa.Package  // by path
-	ppkgs     map[string]*packages.Package
-	funcs     map[string]*ssa.Function // "pkgpath::Key" -> function
-	fnKey     map[*ssa.Function]string
-	contracts map[string]*ContractFile // by package path
-	escFields map[string]bool          // "S.sortname#idx" fields whose address escapes
-	mutGlobals map[string]bool        // globals stored to outside package initialisers
-	writeSets map[*ssa.Function]*WriteSet
-	wsBusy    map[*ssa.Function]bool
-	instWS    map[string]*WriteSet
-	instTmp   map[*ssa.Function]*WriteSet
+	repo       string
+	prog       *ssa.Program
+	fset       *token.FileSet
+	pkgs       map[string]*ssa.Package // by path
+	ppkgs      map[string]*packages.Package
+	funcs      map[string]*ssa.Function // "pkgpath::Key" -> function
+	fnKey      map[*ssa.Function]string
+	contracts  map[string]*ContractFile // by package path
+	escFields  map[string]bool          // "S.sortname#idx" fields whose address escapes
+	mutGlobals map[string]bool          // globals stored to outside package initialisers
+	writeSets  map[*ssa.Function]*WriteSet
+	wsBusy     map[*ssa.Function]bool
+	instWS     map[string]*WriteSet
+	instTmp    map[*ssa.Function]*WriteSet
 	mirrorUsed []string
-	opts      Options
+	opts       Options
 }
 
 type Options struct {
-	Timeout   int // seconds per obligation
-	Tier      string
-	Seed      int
-	KeepSMT   bool
-	Verbose   bool
+	Timeout int // seconds per obligation
+	Tier    string
+	Seed    int
+	KeepSMT bool
+	Verbose bool
 }
 
 func pkgDir(path string) string {
